@@ -15,6 +15,8 @@
 // Modes (--prim): map     in-memory filled-range map (media fiemap unsupported), inline refill, explicit evictions
 //                 fiemap  media fiemap answered from SEEK_DATA / SEEK_HOLE of the real file (block granular extents)
 //                 capfull capacity 0: every media write finds the pool full -> forceRecycle sweeps, plus a fast timer
+//                 punchend directed: cache a file with a partial tail, evict-to-end at the first block boundary past the end
+//                         (at rest), reopen the directory with a new pool, read again
 //                 async   FileCachePool with a thread pool (ICachePool::m_thread_pool set by a derived class): the media
 //                         write of a refill runs in a pool thread that keeps the range lock
 #include <photon/photon.h>
@@ -413,6 +415,7 @@ int main(int argc, char** argv) {
         Params p; p.x = x; p.mode = mode; p.vcpus = vcpus;
         p.async = mode == "async"; p.capfull = mode == "capfull";
         p.fie = mode == "fiemap" ? true : mode == "map" ? false : rng.coin(50);
+        bool directed = mode == "punchend";
         static const uint64_t RUS[] = {4096, 8192, 16384, 65536, 4096, 8192};
         p.ru = RUS[rng.below(6)];
         p.nf = 1 + (int)rng.coin(35);
@@ -422,12 +425,12 @@ int main(int argc, char** argv) {
         vt::Arr sizes;
         for (int f = 0; f < p.nf; f++) {
             uint64_t blocks = rng.coin(15) ? rng.below(2) : 1 + rng.below(std::min<uint64_t>(5 * p.ru / 4096, 40));
-            uint64_t tail = rng.coin(25) ? 0 : 1 + rng.below(4095);
+            uint64_t tail = (rng.coin(25) && !directed) ? 0 : 1 + rng.below(4095);
             uint64_t s = blocks * 4096 + tail; if (s == 0) s = 1 + rng.below(100);
             g_size.push_back(s); sizes.u(s);
         }
         g_fiemap_emul = p.fie; g_jit = 1 + (int)rng.coin(30); g_jseed = seed * 7919 + x * 104729 + mh;
-        g_src_n = 0; g_fault_at = rng.coin(35) ? (int)rng.below(8) : -1; g_fault_kind = (int)rng.below(2); g_fault_r = rng.next();
+        g_src_n = 0; g_fault_at = (rng.coin(35) && mode != "punchend") ? (int)rng.below(8) : -1; g_fault_kind = (int)rng.below(2); g_fault_r = rng.next();
         g_gen.clear(); g_next_gen = 0;
         std::string dir = root + "/x" + std::to_string(x);
         mkdir(dir.c_str(), 0755);
@@ -439,7 +442,7 @@ int main(int argc, char** argv) {
         ICachedFileSystem* fs = make_fs(p, dir, &alloc, src);
         if (!fs) { fprintf(stderr, "cannot build the cached fs\n"); exit(2); }
 
-        int phases = 1 + (int)rng.below(3);
+        int phases = directed ? 2 : 1 + (int)rng.below(3);
         for (int ph = 0; ph < phases; ph++) {
             int nr = 1 + (int)rng.below(maxthreads);
             std::vector<std::vector<ReadOp>> prog(nr);
@@ -447,7 +450,11 @@ int main(int argc, char** argv) {
             // hot spots: make some reads of different readers overlap on purpose
             if (nr > 1) for (int k = 0; k < 2; k++) { auto& a = prog[0][rng.below(prog[0].size())]; auto& b = prog[1][rng.below(prog[1].size())];
                 b.f = a.f; b.off = a.off + (rng.coin(50) ? 0 : rng.below(4096)); if (b.api == 0) b.segs.assign(1, (uint32_t)b.len); }
-            int nev = p.capfull ? (int)rng.below(2) : (int)rng.below(4);
+            if (directed && ph == 0) {            // one reader caches file 0 completely
+                prog.resize(1); nr = 1; prog[0].resize(1);
+                auto& op = prog[0][0]; op.f = 0; op.off = 0; op.len = g_size[0] + 100; op.api = 0; op.segs.assign(1, (uint32_t)op.len);
+            }
+            int nev = directed ? 0 : p.capfull ? (int)rng.below(2) : (int)rng.below(4);
             std::vector<int> evf(nev); std::vector<uint32_t> evd(nev);
             for (int i = 0; i < nev; i++) { evf[i] = (int)rng.below(p.nf); evd[i] = (uint32_t)rng.below(600); }
             bool ev_remote = vcpus > 1 && rng.coin(50);
@@ -490,12 +497,13 @@ int main(int argc, char** argv) {
             photon::thread_usleep(p.ttl <= 3000 && rng.coin(50) ? 8000 : 200);     // lets expired stores go (or not)
 
             // between phases, nothing in flight: punch a range out of a cached file and / or start over with a new pool instance
-            if (rng.coin(30)) {
-                int f = (int)rng.below(p.nf); std::string nm = "/f" + std::to_string(f);
+            if (directed ? ph == 0 : rng.coin(30)) {
+                int f = directed ? 0 : (int)rng.below(p.nf); std::string nm = "/f" + std::to_string(f);
                 // CachedFile::fallocate: "offset and len must be aligned 4k, otherwise it's useless" - it aligns a finite range outwards
                 // itself; with len = -1 (evict to the end) the offset is used as given, so the harness passes an aligned one
                 uint64_t off = pick_off(rng, g_size[f], p.ru); int64_t len = rng.coin(20) ? -1 : (int64_t)(1 + rng.below(3 * p.ru));
                 if (len < 0) off = off / 4096 * 4096;
+                if (directed) { off = (g_size[0] + 4095) / 4096 * 4096; len = -1; }
                 auto h = fs->open(nm.c_str(), O_RDONLY, 0644);
                 if (h) {
                     vt::Ev("PunchInv").i("t", 9).i("f", f).u("off", off).i("len", len);
@@ -504,7 +512,7 @@ int main(int argc, char** argv) {
                     delete h;
                 }
             }
-            if (ph + 1 < phases && rng.coin(55)) {
+            if (ph + 1 < phases && (directed || rng.coin(55))) {
                 delete fs;                                   // the pool instance, its stores, the media wrapper
                 vt::Ev("Reopen").i("x", x);
                 fs = make_fs(p, dir, &alloc, src);
